@@ -1020,6 +1020,22 @@ func (e wiredEval) ShallowCopy() *wiredEval {
 	return &wiredEval{inner: in, sub: &subEval{base: e.inner}}
 }
 
+// ROTSIGN control: the identity is dropped with an ordering test, and every negative rotation with it
+func rotationsFor(p rlwe.Parameters, batch, n int) []uint64 {
+	rotIndex := make(map[int]bool)
+	for i := 1; i < n; i <<= 1 {
+		k := (n - (n & ((i << 1) - 1))) * batch
+		if k > 0 {
+			rotIndex[k] = true
+		}
+	}
+	rots := make([]int, 0, len(rotIndex))
+	for k := range rotIndex {
+		rots = append(rots, k)
+	}
+	return p.GaloisElements(rots)
+}
+
 // INDEG control: the first two components of the input, whatever its degree
 func (e fixEvaluator) SumTwo(ctIn, opOut *rlwe.Ciphertext) {
 	e.r.Add(ctIn.Value[0], ctIn.Value[1], opOut.Value[0])
